@@ -20,44 +20,43 @@ Definition eager_bounds (d : Z) (a b s : bound) : Z * Z * Z :=
   if pos then (dflt 0 a, dflt d b, dflt 1 s)
   else (dflt (d - 1) a, dflt (- (d + 1)) b, dflt 1 s).
 
+Definition eager_slice (d : Z) (a b s : bound) : option (list Z) :=
+  let '(x, y, st) := eager_bounds d a b s in onnx_slice d x y st.
+
 Definition is_escalar (c : comp) : bool := match c with CInt _ => true | CT0 _ => true | _ => false end.
 
-Fixpoint enum_dims {A : Type} (k : nat) (shape : list Z) (l : list A) : list (nat * Z * A) :=
-  match l, shape with
-  | x :: t, d :: shape' => (k, d, x) :: enum_dims (S k) shape' t
-  | _, _ => []
-  end.
+(* index positions with the dimension they meet: (axis, (dim, component)) *)
+Definition e_axis {A} (p : nat * A) : nat := fst p.
+Definition e_dim (p : nat * (Z * comp)) : Z := fst (snd p).
+Definition e_comp (p : nat * (Z * comp)) : comp := snd (snd p).
 
-Definition e_axis {A} (p : nat * Z * A) : nat := fst (fst p).
-Definition e_dim {A} (p : nat * Z * A) : Z := snd (fst p).
-
-Definition eslice_spec (p : nat * Z * comp) : spec :=
-  match snd p with
+Definition eslice_spec (p : nat * (Z * comp)) : spec :=
+  match e_comp p with
   | CSlice a b s => let '(x, y, st) := eager_bounds (e_dim p) a b s in (x, y, e_axis p, st)
   | _ => (0, 0, e_axis p, 1)
   end.
-Definition escalar_spec (p : nat * Z * comp) : spec :=
-  match snd p with
+Definition escalar_spec (p : nat * (Z * comp)) : spec :=
+  match e_comp p with
   | CInt i => (i, i + 1, e_axis p, 1)
   | CT0 i => (i, i + 1, e_axis p, 1)
   | _ => (0, 0, e_axis p, 1)
   end.
 
-Definition egathers (fx : bool) (sq : list nat) (l : list (nat * Z * comp)) : list op :=
-  if fx then map (fun p => OGather (e_axis p - count_below (e_axis p) sq) (gix (snd p))) (rev l)
-  else map (fun p => OGather (e_axis p) (gix (snd p))) l.
+Definition egathers (fx : bool) (sq : list nat) (l : list (nat * (Z * comp))) : list op :=
+  if fx then map (fun p => OGather (e_axis p - count_below (e_axis p) sq) (gix (e_comp p))) (rev l)
+  else map (fun p => OGather (e_axis p) (gix (e_comp p))) l.
 
 Definition eager_ops (fx : bool) (shape : list Z) (idx : list comp) : option (list op) :=
   if Nat.ltb (length shape) (length idx) then None          (* ValueError: more indices than rank *)
   else
-    let en := enum_dims 0 shape idx in
-    let sliced := filter (fun p => is_sliced (snd p)) en in
-    let scalars := filter (fun p => is_escalar (snd p)) en in
-    let tens := filter (fun p => is_t1 (snd p)) en in
+    let en := enum_from 0 (combine shape idx) in
+    let sliced := filter (fun p => is_sliced (e_comp p)) en in
+    let scalars := filter (fun p => is_escalar (e_comp p)) en in
+    let tens := filter (fun p => is_t1 (e_comp p)) en in
     let sq := map e_axis scalars in
     match sliced, scalars, tens with
     | [], [], [] => Some [OIdentity]
-    | [], [p], _ => Some (OGather (e_axis p) (gix (snd p)) :: egathers fx sq tens)
+    | [], [p], _ => Some (OGather (e_axis p) (gix (e_comp p)) :: egathers fx sq tens)
     | [], [], _ => Some (egathers fx [] tens)
     | _, _, _ =>
         Some (OSlice (map eslice_spec sliced ++ map escalar_spec scalars)
